@@ -55,7 +55,7 @@ def strdict(sub, max_size=5, hostile=False):
 
 def values(depth=3, width=4, hostile=False):
     # engines that stop at inferred types (LABEL_KEYS on) also get instances of two distinct classes that print alike
-    atoms_ = st.one_of(atoms, atoms, st.sampled_from([["special", "twinA"], ["special", "twinB"], ["list", [["special", "twinA"]]], ["list", [["special", "twinB"]]]])) if LABEL_KEYS[0] else atoms
+    atoms_ = st.one_of(atoms, atoms, st.sampled_from([["special", "twinA"], ["special", "twinB"], ["list", [["special", "twinA"]]], ["list", [["special", "twinB"]]], ["special", "localBase"], ["list", [["special", "localBase"], ["lit", 0]]]])) if LABEL_KEYS[0] else atoms
     if depth <= 0:
         return atoms_
     sub = values(depth - 1, width, hostile)
@@ -162,6 +162,8 @@ def build(spec):
             return fxh.NT(1, "x")
         if s == "bytes":
             return b"x"
+        if s == "localBase":
+            return fxh.make_local_base()
         if s == "twinA":
             return fxh.TwinA()
         if s == "twinB":
